@@ -32,6 +32,8 @@ Grammar (everything else is refused)
                the code string (what eval does with it stays modelled as in Model/C12_GPPrint.v).
 Types: str, nat (every int), bool, node, ty, cst, pset, fpset, arity (option nat), tpl (a format string), conv, tval, compiled, obj, lists,
 pairs, dicts with str keys, option.  Locals are named v_<name> in the generated text.
+Module level: the builtins the grammar uses must not be rebound in deap/gp.py; Primitive, Terminal, compile, re, deque must be
+what the signature table assumes (otherwise every function is refused).
 An in-place change of a parameter is refused (the caller would see it), except `self` of a procedure, whose final
 state is the result (renameArguments); compileADF's change of each pset.context is local to the loop variable: what the
 caller sees of it afterwards is not regenerated (nor modelled).
@@ -1292,6 +1294,44 @@ def find_function(tree, cls, name):
     return fs[0]
 
 
+# names the grammar reads as Python builtins: a module-level binding of one of them changes their meaning
+BUILTINS_USED = {"len", "str", "repr", "reversed", "list", "zip", "enumerate", "issubclass", "type", "isinstance", "eval",
+                 "range", "map", "dict", "TypeError", "NameError", "MemoryError"}
+
+
+def module_bound(tree):
+    out = {}
+    for n in tree.body:
+        if isinstance(n, (ast.FunctionDef, ast.ClassDef, ast.AsyncFunctionDef)):
+            out[n.name] = n
+        elif isinstance(n, (ast.Import, ast.ImportFrom)):
+            for a in n.names:
+                out[(a.asname or a.name).split(".")[0]] = n
+        else:
+            for x in ast.walk(n):
+                if isinstance(x, ast.Name) and isinstance(x.ctx, ast.Store):
+                    out[x.id] = n
+    return out
+
+
+def check_globals(tree):
+    """the module-level names the grammar relies on mean what the signature table assumes"""
+    mb = module_bound(tree)
+    bad = sorted(BUILTINS_USED & set(mb))
+    if bad:
+        raise Refuse(mb[bad[0]], "the builtin name %s is rebound at module level" % bad[0])
+    for name, kind in (("Primitive", ast.ClassDef), ("Terminal", ast.ClassDef), ("compile", ast.FunctionDef)):
+        if not isinstance(mb.get(name), kind):
+            raise Refuse("Module", "%s is not the module-level %s the signature table assumes" % (name, kind.__name__))
+    r = mb.get("re")
+    if not (isinstance(r, ast.Import) and any(a.name == "re" and a.asname is None for a in r.names)):
+        raise Refuse("Module", "`re` is not the standard module imported as `import re`")
+    d = mb.get("deque")
+    if d is not None and not (isinstance(d, ast.ImportFrom) and d.module == "collections" and d.level == 0
+                              and any(a.name == "deque" and a.asname is None for a in d.names)):
+        raise Refuse("Module", "`deque` is not collections.deque")
+
+
 def gen_names():
     return [f["gen"] for f in FUNCS if isinstance(f, dict)]
 
@@ -1307,6 +1347,11 @@ def translate_source(src, forced=None):
         perr = None
     except (SyntaxError, ValueError) as e:
         tree, perr = None, Refuse("Module", "the source does not parse: %s" % e)
+    if tree is not None:
+        try:
+            check_globals(tree)
+        except Refuse as r:
+            perr = r
     out = [HEADER]
     status = {}
     for sig in FUNCS:
